@@ -273,6 +273,15 @@ func c07Exec(ops []string, prop string) vResult {
 			if e != nil {
 				s = e.streams[id]
 			}
+			// a stream that sits in the pool belongs to the pool: callers do not touch it (using a stream after PutBack is
+			// the caller breaking the pool's contract, not something the properties speak about)
+			if x == "a" && len(f) > 2 && f[0] != "pput" {
+				for _, pid := range c.pooled {
+					if pid == id {
+						return "inpool"
+					}
+				}
+			}
 			switch {
 			case f[0] == "open" && len(f) == 2 && e != nil:
 				st, err := e.s.OpenStream()
